@@ -207,7 +207,7 @@ Fixpoint p_slice_chunks (cd : list N) (ndims : nat) (ents : list (N * list N * N
 Definition p_slice_chunked (fuel : nat) (s : sel) (dims : list N) (ly : layout') : prog slicedata :=
   let cd := match ly_chunk ly with Some c => c | None => [] end in
   if (length cd <? length dims)%nat then Fail else                          (* dataset_read_hyperslab.go:684 *)
-  if existsb (N.eqb 0) (firstn (length dims) cd) then Fail else             (* dataset_read_hyperslab.go:687 *)
+  if existsb (N.eqb 0) (firstn (length dims) cd) then Fail else             (* dataset_read_hyperslab.go:688 *)
   if out_size s =? 0 then Ret SlEmpty else
   let ov := overlapping s cd dims in
   match ov with
@@ -228,7 +228,7 @@ Definition p_read_hyperslab (fuel : nat) (s : sel) (ms : list hmsg') : prog slic
   | Some dtd, Some dsd, Some lyd =>
       bind (lift (dt <- dec_datatype dtd;; ds <- dec_dataspace dsd;; ly <- dec_layout (sbp sb) lyd;; Ok (dt, ds, ly))) (fun x =>
       let dt := fst (fst x) in let ds := snd (fst x) in let ly := snd x in
-      (* dataset_read_hyperslab.go:367  an unparsable filter pipeline message is an error *)
+      (* dataset_read_hyperslab.go:368  an unparsable filter pipeline message is an error *)
       bind (match find_msg 11 ms with Some fd => bind (lift (dec_pipeline fd)) (fun _ => Ret tt) | None => Ret tt end) (fun _ =>
       (* dataset_read_hyperslab.go:385  only float64 / float32 / int32 / int64 elements *)
       if negb (((dt_class dt =? 1) || (dt_class dt =? 0)) && ((dt_size dt =? 4) || (dt_size dt =? 8))) then Fail else
@@ -241,7 +241,7 @@ Definition p_read_hyperslab (fuel : nat) (s : sel) (ms : list hmsg') : prog slic
         else if ly_class ly =? 2 then p_slice_chunked fuel s dims ly
         else Fail
       else
-        match validate (refill s) dims with                                  (* dataset_read_hyperslab.go:395 *)
+        match validate (refill s) dims with                                  (* dataset_read_hyperslab.go:395 validateHyperslabSelection *)
         | None => Fail
         | Some s =>
             if ly_class ly =? 0 then Ret (SlCompact (match ly_compact ly with Some c => c | None => [] end))
@@ -330,7 +330,7 @@ Fixpoint p_steps (fuel : nat) (steps : list (outcome bytes)) : prog (list bytes)
   match steps with
   | [] => Ret []
   | Ok ref :: rest =>
-      (* dataset_reader_compound.go:277 / attribute.go:396  ReadGlobalHeapCollection *)
+      (* dataset_reader_compound.go:276 / attribute.go:396  ReadGlobalHeapCollection *)
       bind (api_vlen_string sb fuel ref) (fun s => bind (p_steps fuel rest) (fun r => Ret (s :: r)))
   | Err :: _ => Fail
   | Panic :: _ => Crash
@@ -345,8 +345,8 @@ Definition vlen_walk (idx : nat) (n : N) (attrs : list attr) : list (outcome byt
   | Some (_, d) =>
       let rs := spp_offsize sb + 8 in
       if (n =? 0) || (blen d =? 0) then [] else                             (* attribute.go:172: empty value, no I/O *)
-      if 18446744073709551616 <=? n * rs then [Err] else                    (* attribute.go:331 utils.SafeMultiply *)
-      if blen d <? n * rs then [Err] else                                   (* attribute.go:336 *)
+      if 18446744073709551616 <=? n * rs then [Err] else                    (* attribute.go:334 utils.SafeMultiply *)
+      if blen d <? n * rs then [Err] else                                   (* attribute.go:339 *)
       map (fun i => match slice d (i * rs) (i * rs + rs) with Ok e => Ok (skipn 4 e) | _ => Err end) (nseq n)
   end.
 
